@@ -147,6 +147,13 @@ func (cr *cursor) applyWordBoundaryRules(i int) (isWordBoundary, removePrevNoExt
 		isWordBoundary = true // Rule WB3b
 	} else if cr.prev == 0x200D && cr.isExtentedPic {
 		isWordBoundary = false // Rule WB3c
+		// the ZWJ is ignored by the other rules (WB4) : Rule WB6 still applies
+		// to the previous boundary when the pictograph is also a letter
+		if (prevPrev == ucd.WordBreakALetter || prevPrev == ucd.WordBreakHebrew_Letter) &&
+			(prev == ucd.WordBreakMidLetter || prev == ucd.WordBreakMidNumLet || prev == ucd.WordBreakSingle_Quote) &&
+			(current == ucd.WordBreakALetter || current == ucd.WordBreakHebrew_Letter) {
+			removePrevNoExtend = true // Rule WB6
+		}
 	} else if prev == ucd.WordBreakWSegSpace &&
 		current == ucd.WordBreakWSegSpace && isAfterNoExtend {
 		isWordBoundary = false // Rule WB3d
